@@ -46,7 +46,7 @@ FIELDS = [{"id": 1, "name": "x", "type": "long", "required": False}]
 def yield_filter(op: str, path: str, phase: tuple) -> bool:
     if P.protocol_yield_filter(op, path, phase):
         return True
-    if op in ("list_files", "get_modified_time", "Tick"):
+    if op in ("list_files", "get_modified_time", "Tick", "Land"):
         return True
     if op in ("read_file", "open_file") and any(p.startswith("GarbageCollector.") for p in phase):
         return True
@@ -55,7 +55,10 @@ def yield_filter(op: str, path: str, phase: tuple) -> bool:
     return False
 
 
-def run_case(ctx, txns: List[Dict[str, Any]], chooser_factory, age_jump: int, second_gc: bool = False) -> Dict[str, Any]:
+def run_case(ctx, txns: List[Dict[str, Any]], chooser_factory, age_jump: int, second_gc: bool = False,
+             delayed_flip: bool = False) -> Dict[str, Any]:
+    """delayed_flip: the storage answers transaction 0's pointer write with a timeout and applies it LATER (actor N lands
+    it): an ambiguous commit outcome on a store whose write failures are not atomic."""
     """txns: [{"kind": "append"|"rollback", "rows": [...]}]; actor G = collector; actor K = the clock (jumps by age_jump)."""
     import datashard
     import datashard.garbage_collector as gcmod
@@ -67,8 +70,28 @@ def run_case(ctx, txns: List[Dict[str, Any]], chooser_factory, age_jump: int, se
     shutil.rmtree(root, ignore_errors=True)
     vmtime: Dict[str, float] = {}
 
+    pending_flip: Dict[str, Any] = {}
+
+    class AmbiguousLocal(LocalStorageBackend):
+        """A local directory behind a network: a failed write may still land."""
+        @property
+        def atomic_write_failures(self) -> bool:      # type: ignore[override]
+            return False
+
     def factory(tp: str) -> Any:
-        b = S.instrument_backend(sc, LocalStorageBackend(tp))
+        raw = AmbiguousLocal(tp) if delayed_flip else LocalStorageBackend(tp)
+        if delayed_flip:
+            raw_write = raw.write_file
+
+            def lossy_write(path: str, content: bytes) -> None:
+                me = sc.me()
+                if me is not None and me.name == "A0" and path.endswith(P.HINT) and "done" not in pending_flip:
+                    pending_flip["done"] = False
+                    pending_flip["land"] = lambda: raw_write(path, content)
+                    raise TimeoutError("injected: no answer to the pointer write (it lands later)")
+                return raw_write(path, content)
+            raw.write_file = lossy_write
+        b = S.instrument_backend(sc, raw)
         real_mtime = b.get_modified_time
         real_write = b.write_file
 
@@ -150,6 +173,15 @@ def run_case(ctx, txns: List[Dict[str, Any]], chooser_factory, age_jump: int, se
             if second_gc:
                 sc.spawn("H", gc_body)          # a second collection run (schedules keep it after G's)
             sc.spawn("K", clock_body)
+            if delayed_flip:
+                def net_body() -> Any:
+                    sc.yield_point("Land", P.HINT)
+                    if "land" in pending_flip:
+                        pending_flip["land"]()
+                        pending_flip["done"] = True
+                        return "landed"
+                    return "nothing-pending"
+                sc.spawn("N", net_body)
             sc.step_hook = lambda a: setattr(sc, "clock_ms", sc.clock_ms + 1)
             enabled_at: List[List[str]] = []
             chooser = chooser_factory(sc)
@@ -168,6 +200,7 @@ def run_case(ctx, txns: List[Dict[str, Any]], chooser_factory, age_jump: int, se
             out["log"] = sc.log
             out["outcomes"] = {n: (("raised", type(a.error).__name__ + ": " + str(a.error)[:120]) if a.error else ("ok", str(a.result))) for n, a in sc.actors.items()}
             out["gc_window"] = gc_window
+            out["delayed_flip"] = delayed_flip
             try:
                 out["final"] = P.read_table_independent(root)
             except Exception as e:
@@ -189,7 +222,7 @@ def oracle(out: Dict[str, Any]) -> Optional[str]:
     if out["final"]["missing"]:
         return f"files referenced by retained snapshots were deleted by the collector: {out['final']['missing'][:3]}"
     for n, (st, d) in out["outcomes"].items():
-        if st != "ok":
+        if st != "ok" and not (out.get("delayed_flip") and n == "A0" and "AmbiguousCommitError" in d):
             return f"actor {n} raised: {d}"
     return None
 
@@ -199,6 +232,7 @@ def project(out: Dict[str, Any], ntx: int) -> Tuple[List[str], Optional[str]]:
     evs: List[str] = []
     data_of: Dict[str, int] = {}              # data file basename -> transaction
     marked: Dict[int, bool] = {}
+    rolled: Dict[int, bool] = {}
     last_clock = None
     gc_open: List[Optional[str]] = [None]
     for e in out["log"]:
@@ -226,8 +260,16 @@ def project(out: Dict[str, Any], ntx: int) -> Tuple[List[str], Optional[str]]:
                 if is_data_marker and "Transaction._finish_committed" in phase and not marked.get(t):
                     marked[t] = True
                     evs.append(f"TMarkD {t}%nat")
+                elif is_data_marker and "Transaction._rollback" in phase and not rolled.get(t) and not marked.get(t):
+                    # the data file's marker goes although the file stays (a rollback that keeps files): protection dropped
+                    marked[t] = True
+                    evs.append(f"TMarkD {t}%nat")
             elif op == "delete_file" and pcs == "data" and "Transaction._rollback" in phase:
+                rolled[t] = True
                 evs.append(f"TRollback {t}%nat")
+        elif a == "N" and op == "Land":
+            if out.get("outcomes", {}).get("N", ("", ""))[1] == "landed":
+                evs.append("TFlip 0%nat")           # the delayed pointer write takes effect: transaction 0 is committed now
         elif a in ("G", "H") and any(p.startswith("GarbageCollector.") for p in phase):
             if op == "list_files" and path.rstrip("/") == "metadata/inflight":
                 if gc_open[0] is not None and gc_open[0] != a:
@@ -362,6 +404,25 @@ def directed_two_runs(ctx, txns, quick: bool):
         yield [("segments2", seg)], run_case(ctx, txns, segment_chooser(seg), 5000, second_gc=True)
 
 
+def directed_delayed_flip(ctx, txns, quick: bool):
+    """Ambiguous commit: transaction 0's pointer write is answered by a timeout and lands later.  The transaction ends
+    (AmbiguousCommitError), the clock jumps (its file is old), the collector runs k steps, the write lands, the collector
+    finishes -- for every k; and the landing before / after the clock jump."""
+    probe = run_case(ctx, txns, segment_chooser([("A0", 10**6), ("K", 10**6), ("G", 10**6), ("N", 10**6)]), 5000, delayed_flip=True)
+    ng = sum(1 for a in probe["schedule"] if a == "G")
+    for k in range(0, ng + 1):
+        for order in (("A0", "K", "G", "N", "G"), ("A0", "N", "K", "G", "G"), ("K", "A0", "G", "N", "G")):
+            seg = []
+            gdone = False
+            for a in order:
+                if a == "G" and not gdone:
+                    seg.append(("G", k))
+                    gdone = True
+                else:
+                    seg.append((a, 10**6))
+            yield [("segments3", seg)], run_case(ctx, txns, segment_chooser(seg), 5000, delayed_flip=True)
+
+
 TXSETS = [
     [{"kind": "append", "rows": [{"x": 100}]}],
     [{"kind": "append", "rows": [{"x": 100}]}, {"kind": "rollback", "rows": [{"x": 200}]}],
@@ -389,6 +450,7 @@ def run(ctx) -> None:
             runs += list(directed_retry(ctx, txns, quick))
         if ti == 0:
             runs += list(directed_two_runs(ctx, txns, quick))
+            runs += list(directed_delayed_flip(ctx, txns, quick))
         for k in range(10 if quick else 200):
             seed = ctx.rng.randrange(1 << 30)
             runs.append(([("random", seed)], run_case(ctx, txns, lambda sc, seed=seed: S.random_chooser(_r.Random(seed), 0.4), 5000)))
@@ -433,7 +495,9 @@ def replay(ctx, payload) -> int:
         print("replay: no concrete case")
         return 2
     dev = c.get("deviations", [])
-    if dev and dev[0][0] == "segments2":
+    if dev and dev[0][0] == "segments3":
+        out = run_case(ctx, c["txns"], segment_chooser([(a, n) for a, n in dev[0][1]]), c.get("age_jump", 5000), delayed_flip=True)
+    elif dev and dev[0][0] == "segments2":
         out = run_case(ctx, c["txns"], segment_chooser([(a, n) for a, n in dev[0][1]]), c.get("age_jump", 5000), second_gc=True)
     elif dev and dev[0][0] == "segments":
         out = run_case(ctx, c["txns"], segment_chooser([(a, n) for a, n in dev[0][1]]), c.get("age_jump", 5000))
